@@ -121,6 +121,7 @@ class Session:
     def __init__(self, binary, script, env, want_events=True, wall=WALL, args=()):
         self.binary, self.script, self.env, self.wall, self.args = binary, script, env, wall, list(args)
         self.want_events = want_events
+        self.tscale = 1.0        # factor on the answer timeouts of the script (slow instrumented builds)
         self.lines = []          # (go commands sent when the line arrived, text)
         self.sent = []           # commands sent
         self.go_sent = 0
@@ -187,14 +188,14 @@ class Session:
                     time.sleep(st[1])
                 elif k == "bm":
                     want = self.go_sent
-                    if not self._wait(lambda: self.n_bm() >= want or p.poll() is not None, st[1]):
+                    if not self._wait(lambda: self.n_bm() >= want or p.poll() is not None, st[1] * self.tscale):
                         self.stuck_at = i; break
                 elif k == "bmall":
                     want = self.go_sent
-                    if not self._wait(lambda: self.n_bm() >= want or p.poll() is not None, st[1]):
+                    if not self._wait(lambda: self.n_bm() >= want or p.poll() is not None, st[1] * self.tscale):
                         self.stuck_at = i; break
                 elif k == "line":
-                    if not self._wait(lambda: any(l.startswith(st[1]) for _, l in self.lines) or p.poll() is not None, st[2]):
+                    if not self._wait(lambda: any(l.startswith(st[1]) for _, l in self.lines) or p.poll() is not None, st[2] * self.tscale):
                         self.stuck_at = i; break
                 elif k == "eof":
                     break
@@ -325,13 +326,13 @@ def judge(ctx, sess, tie_name, check_accept=True, strict=False):
     return nev
 
 
-def replay_session(ctx, rp, variant):
+def replay_session(ctx, rp, variant, wall=WALL, tscale=1.0):
     bdir = vlib.cxx_build(variant, ("texel", "mknet"))
     net = vlib.net_file(bdir, "material", 1)
     env = dict(rp.get("env", {})); env["TEXEL_VERIF_NET"] = net
     script = [tuple(x) for x in rp["script"]]
-    s = Session(os.path.join(bdir, "texel"), script, env)
-    s.name, s.threads = "replay", 0
+    s = Session(os.path.join(bdir, "texel"), script, env, wall=wall)
+    s.name, s.threads, s.tscale = "replay", 0, tscale
     s.run()
     for g, l in s.lines[-12:]:
         print("   out:", l)
